@@ -60,7 +60,7 @@ Example C11_ex_append5 :
 Proof. vm_compute. reflexivity. Qed.
 
 (* ==================== proofs, update, reload (second round) ==================== *)
-From LE Require Import RMT.Proof RMT.NodeProofs RMT.IndexProofs RMT.ProofSoundTop RMT.ProofCompleteTop RMT.Reload RMT.MultiLists RMT.MultiFinal RMT.WitnessTop.
+From LE Require Import RMT.Proof RMT.NodeProofs RMT.IndexProofs RMT.ProofSoundTop RMT.ProofCompleteTop RMT.Reload RMT.ReloadScript RMT.UpdatePath RMT.MultiLists RMT.MultiFinal RMT.WitnessTop.
 
 (* The (layer, index) addressing of the Go code: node (k, i) of l carries the LIP-0031 root of the slice
    l[i*2^k, (i+1)*2^k); a node whose right half is empty has the value of its left child, otherwise it is the branch
@@ -90,6 +90,30 @@ Theorem C11_proof_sound : forall (n : N), size_ok n ->
   nth_error idxs j = Some (leaf_idx n pos) -> nth_error qs j = Some q -> nth_error l (N.to_nat pos) = Some x ->
   q = hleaf x.
 Proof. exact @proof_sound. Qed.
+
+(* non-vacuity of the soundness hypotheses: the free hash is injective and its equality test is exact *)
+Fixpoint fh_eqb (a b : fh) : bool :=
+  match a, b with
+  | FE, FE => true
+  | FL x, FL y => Nat.eqb x y
+  | FB a1 a2, FB b1 b2 => fh_eqb a1 b1 && fh_eqb a2 b2
+  | _, _ => false
+  end.
+(* proof.Size is an UNAUTHENTICATED field of the Go proof: C11_proof_sound fixes the size by [len l = n], i.e. it is a
+   statement for verifiers that know the size of the tree.  With a wrong size the POSITIONAL reading is false: the
+   three-leaf tree accepts "position 1 of a two-leaf tree is leaf 3" (the data is a leaf of the tree, the position is not
+   its position).  What is tested for wrong sizes (harness tampering kind 5) is the data-level reading: an accepted proof
+   claims only hashes of leaves of the list.  VerifyProof has no caller in the repository; a caller must compare
+   proof.Size with a trusted size. *)
+Theorem C11_proof_position_wrong_size_refuted :
+  exists (l : list nat) (size : N) (pos : N) (d : nat) (sibs : list fh),
+    size <> len l /\
+    verify_proof FB fh_eqb [FL d] size [leaf_idx size pos] sibs (mroot FE FL FB l) = true /\
+    nth_error l (N.to_nat pos) <> Some d /\ In d l.
+Proof.
+  exists [1; 2; 3]%nat, 2, 1, 3%nat, [FB (FL 1%nat) (FL 2%nat)].
+  split; [cbn; discriminate|]. split; [vm_compute; reflexivity|]. split; [cbn; discriminate|cbn; auto].
+Qed.
 
 (* ... hence a proof never verifies for other leaf data (under leaf-hash injectivity) *)
 Theorem C11_proof_rejects_other_data : forall (n : N), size_ok n ->
@@ -176,14 +200,31 @@ Theorem C11_reload_preserves : forall (D Hsh : Type) (hempty : Hsh) (hleaf : D -
               s = RS (mroot hempty hleaf hbranch l) (subtree_roots hempty hleaf hbranch l) (N.of_nat (length l)).
 Proof. exact @reload_preserves. Qed.
 
-(* non-vacuity of the soundness hypotheses: the free hash is injective and its equality test is exact *)
-Fixpoint fh_eqb (a b : fh) : bool :=
-  match a, b with
-  | FE, FE => true
-  | FL x, FL y => Nat.eqb x y
-  | FB a1 a2, FB b1 b2 => fh_eqb a1 b1 && fh_eqb a2 b2
-  | _, _ => false
-  end.
+(* Update writes the append path of the updated list (Update re-reads, after the node writes, the perfect blocks of the
+   binary expansion of the size) *)
+Theorem C11_update_refreshes_append_path : forall (n : N), size_ok n ->
+  forall (D Hsh : Type) (hempty : Hsh) (hleaf : D -> Hsh) (hbranch : Hsh -> Hsh -> Hsh) (l l' : list D),
+  len l = n -> len l' = n ->
+  update_path (node_of hempty hleaf hbranch l') n (subtree_roots hempty hleaf hbranch l) = subtree_roots hempty hleaf hbranch l'.
+Proof. exact @update_path_spec. Qed.
+
+(* Reload over the whole life of a tree: every script of Append, Update (non-empty ascending existing positions, at most
+   2^29 leaves) and re-open steps (after the first write) runs to the end on the model of the Go object + store cell,
+   the final in-memory state is (LIP-0031 root, append path, size) of the final list, and the store cell decodes to that
+   state -- in particular after an Update (saveInfo after the path refresh) and across re-open steps in the middle.
+   Hypothesis: round trip of the info codec (C08).  That the Go node store holds the view node_of of the current list is
+   tested (seq scripts with re-open steps), not proved. *)
+Theorem C11_reload_continues :
+  forall (D Hsh : Type) (hempty : Hsh) (hleaf : D -> Hsh) (hbranch : Hsh -> Hsh -> Hsh) (heqb : Hsh -> Hsh -> bool),
+  (forall a, heqb a a = true) -> (forall a b, heqb a b = true -> a = b) ->
+  forall (enc : @rstate Hsh -> list N) (dec : list N -> option (@rstate Hsh)), (forall s, dec (enc s) = Some s) ->
+  forall os : list (@op D), script_ok [] os ->
+  exists s' c', run hempty hleaf hbranch heqb enc dec os ([], rinit hempty, None) = Some (final [] os, s', c') /\
+                s' = RS (mroot hempty hleaf hbranch (final [] os)) (subtree_roots hempty hleaf hbranch (final [] os))
+                        (N.of_nat (length (final [] os))) /\
+                (final [] os <> [] -> load dec c' = Some s').
+Proof. exact @reload_script_new. Qed.
+
 Example C11_ex_proof5 :
   exists sibs, generate_proof (node_of FE FL FB [1; 2; 3; 4; 5]%nat) 5 [Some (0, 4)] = Ok (5, [leaf_idx 5 4], sibs) /\
                sibs = [FB (FB (FL 1) (FL 2)) (FB (FL 3) (FL 4))]%nat /\
